@@ -67,6 +67,28 @@ fn steer_exact_trim(r: &mut Rng, out: &mut String, b: &str, nkeys: usize) {
     writeln!(out, "eq b8 {}", b).unwrap();
 }
 
+/// remove_smallest / remove_biggest on a bitset chunk that stays a bitset, where the removal ends exactly on (or next to) a
+/// 64-bit word boundary (the cached cardinality must follow)
+fn steer_word_trim(r: &mut Rng, out: &mut String, b: &str, nkeys: usize) {
+    let k = key(r, nkeys) as u64;
+    let base = k << 16;
+    let smallest = r.chance(1, 2);
+    if smallest {
+        writeln!(out, "remove_range {} un in:{}", b, base + 65535).unwrap();
+    } else {
+        writeln!(out, "remove_range {} in:{} un", b, base).unwrap();
+    }
+    let w0 = r.below(200) * 64;
+    let n = r.range(9000, 12000) / 64 * 64 + *r.pick(&[0u64, 0, 1, 63]);
+    writeln!(out, "insert_range {} in:{} in:{}", b, base + w0, base + w0 + n - 1).unwrap();
+    let cut = r.range(1, 60) * 64 + *r.pick(&[0u64, 0, 0, 1, 63]);
+    writeln!(out, "{} {} {}", if smallest { "remove_smallest" } else { "remove_biggest" }, b, cut).unwrap();
+    writeln!(out, "dump {}", b).unwrap();
+    writeln!(out, "len {}", b).unwrap();
+    writeln!(out, "clone b8 {}", b).unwrap();
+    writeln!(out, "eq b8 {}", b).unwrap();
+}
+
 /// a range query across a HOLE: chunks k and k+1 populated up to the chunk edge, chunk k+2 absent, chunk k+3 populated
 /// from its first value (a lookup by position instead of by key finds the wrong chunk)
 fn steer_hole(r: &mut Rng, out: &mut String, b: &str) {
@@ -168,7 +190,13 @@ pub fn queries(r: &mut Rng, out: &mut String, b: &str, nkeys: usize) {
 pub fn mutator(r: &mut Rng, out: &mut String, nkeys: usize) {
     {
         match r.below(30) {
-            27 => steer_exact_trim(r, out, "b0", nkeys),
+            27 => {
+                if r.chance(1, 2) {
+                    steer_exact_trim(r, out, "b0", nkeys)
+                } else {
+                    steer_word_trim(r, out, "b0", nkeys)
+                }
+            }
             28 => steer_hole(r, out, "b0"),
             29 => steer_top_word(r, out, "b0", nkeys),
             24..=26 => {
